@@ -128,7 +128,7 @@ def verify_function(reg, qual, prop):
         old = st.copy()
         ex.old_state = old
         for name, r in clause_items(spec.requires):
-            ctx.assume(st, ex.eval_spec(r, st))
+            ctx.assume(st, ex.eval_spec(r, st, assumed=True))
         old.heap = dict(st.heap)
         if spec.cases:
             ctx.case_conds = [(cn, ex.eval_spec(ct, old)) for cn, ct in spec.cases.items()]
@@ -165,6 +165,9 @@ def verify_function(reg, qual, prop):
             if spec.cases:
                 cases = [(cn, ex.eval_spec(ct, old)) for cn, ct in spec.cases.items()]
                 ctx.oblige(final, "post:cases-exhaustive", or_(*[c for _, c in cases]), "post", fi.node.lineno)
+            # `raises={E: cond}` is read by callers as "raises E exactly when cond": no normal return under cond
+            for exc, rc in sorted(spec.raises.items()):
+                ctx.oblige(final, "post:no-normal-return-when-%s-is-specified" % exc, not_(ex.eval_spec(rc, old)), "post", fi.node.lineno)
             for name, e in clause_items(list(spec.ensures) + list(spec.ensures_local)):
                 cl = ex.eval_spec(e, final)
                 parts = split_conj(cl)
@@ -435,6 +438,18 @@ def package(reg, ctx, res):
                 order = {h.get_id(): i for i, h in enumerate(base)}
                 keep.sort(key=lambda h: order[h.get_id()])
                 variants.append(("smt2_cone", keep))
+            # depth-limited versions of the same cone (hypotheses one / two sharing steps away from the goal): on long
+            # functions the transitive cone is nearly everything, and most proofs need only the facts next to the goal
+            base_n = keep if rest2 else base
+            g = noninput(asyms(goal)) | noninput(asyms(o.pc))
+            prev = None
+            for depth in (1, 2):
+                sel = [h for h in base_n if not noninput(asyms(h)) or (noninput(asyms(h)) & g)]
+                if len(sel) < len(base_n) and (prev is None or len(sel) > prev):
+                    variants.append(("smt2_near%d" % depth, sel))
+                prev = len(sel)
+                for h in sel:
+                    g = g | noninput(asyms(h))
         rec = dict(name=o.name, kind=o.kind, carry=o.carry, line=o.line)
         for key, hs in variants:
             s = z3.Solver()
